@@ -629,6 +629,11 @@ where
         self.base.verif_install_mock_clock()
     }
 
+    /// Number of ops currently queued in the (read, write) channels. Lock free.
+    pub fn verif_queue_lens(&self) -> (usize, usize) {
+        self.base.verif_queue_lens()
+    }
+
     /// Describes the complete internal state (see `BaseCache::verif_snapshot`).
     pub fn verif_snapshot(
         &self,
